@@ -184,7 +184,8 @@ def run(chk):
                        "and panic-freedom of the rest of both compilers is not modelled: it is observed on the input population only; a theorem cannot "
                        "exhibit stack exhaustion, allocator aborts or wall-clock behaviour", "nesting depth of inputs <= 64 (property premise)"]
     chk.model_tie([("GE.Thm.C01Number", THM_NUMBER), ("GE.Thm.C01AttrLoop", THM_ATTR),
-                   ("GE.Thm.C01Css", ["GE.Css.rules_progress", "GE.Css.qualRule_progress", "GE.Css.atRule_rest", "GE.Css.importRule_rest"])])
+                   ("GE.Thm.C01Css", ["GE.Css.rules_progress", "GE.Css.qualRule_progress", "GE.Css.atRule_rest", "GE.Css.importRule_rest"]),
+                   ("GE.Thm.C17Sheet", ["GE.Css.rules_fuel_sufficient", "GE.Css.rules_sheet"])])
     rng = chk.rng.fork("c01")
     # ---- numeric scanners: model vs implementation ---------------------------------------------------
     lits = []
